@@ -456,6 +456,7 @@ def parseCall (toks : List String) : Option Call :=
   | ["hash_new", d, t] => do let t ← n t; if t > 10 then none else some (.ctor .hashNew (← n d) none)
   | ["hash_update", d] => do some (.mut .nop .hash (← n d) none)
   | ["hash_reset", d] => do some (.mut .nop .hash (← n d) none)
+  | ["hash_check", d] => do some (.mut .nop .hash (← n d) none)   -- harness-side probe: the object still yields the digest of what it absorbed
   | ["hash_string", s, d] => do some (.derive .hashString (← n s) (← n d) none)
   | ["hash_free", d] => do some (.dtor .hash (← n d))
   | ["ipc_key", d, p] => do some (.ctor (.ipcKey ((← n p) ≠ 0)) (← n d) none)
